@@ -667,7 +667,7 @@ func FuzzC01Datagram(f *testing.F) {
 
 func init() {
 	kit.Register("C01a",
-		"rapid: a node in a generated configuration (peer store on/off, BEP 42 enforcement on/off with a public IP, passive, query hook allow/veto, udp4 or dual-stack), after a prelude that puts 0..5 peers into the table, the peer store and the item store through genuine exchanges, runs one operation over simulated starting nodes (none / Ping / Bootstrap / Announce with port, implied port, scrape, no announce / getput.Get immutable and mutable with salt and seq / getput.Put) and is sent 1..40 datagrams: raw bytes, arbitrary bencode, nesting up to 3000 deep, strings up to 65 400 bytes, datagrams of 65 535..70 000 bytes, byte-mutated valid messages of every method (library-encoded and hand-encoded), KRPC-shaped dictionaries with mistyped and mis-sized fields, and adversarial replies to the operation's own live queries (from the queried address, or with the live transaction ID from elsewhere) whose response fields id / nodes / nodes6 / token / values / v / k / sig / seq / BFsd / BFpe / samples / interval / num / ip are each independently absent, valid or malformed, with y in r/e/x/absent, every `e` form and trailing bytes. Oracle: the process does not die (write-ahead journal + crash triage in the driver); once the adversary stops, the operation returns and Stats/NumNodes/Nodes/WriteStatus return (deadlock detector); a well-formed ping from a never-used address is answered by one response carrying the node's ID (nothing when passive or vetoing). Non-trivial: a datagram reached a query handler, or a hostile reply was delivered from the address of a live query.",
+		"rapid: a node in a generated configuration (peer store on/off, BEP 42 enforcement on/off with a public IP, passive, query hook allow/veto, udp4 or dual-stack), after a prelude that puts 0..5 peers into the table, the peer store and the item store through genuine exchanges, runs one operation over simulated starting nodes (none / Ping / Bootstrap / Announce with port, implied port, scrape, no announce / getput.Get immutable and mutable with salt and seq / getput.Put / an Announce whose peers channel nobody reads, closed after the datagram sequence / Server.TableMaintainer in the background, each burst of bucket-filling pings with a maintenance pass of its own) and is sent 1..40 datagrams: raw bytes, arbitrary bencode, nesting up to 3000 deep, strings up to 65 400 bytes, datagrams of 65 535..70 000 bytes, byte-mutated valid messages of every method (library-encoded and hand-encoded), KRPC-shaped dictionaries with mistyped and mis-sized fields, and adversarial replies to the operation's own live queries (from the queried address, or with the live transaction ID from elsewhere) whose response fields id / nodes / nodes6 / token / values / v / k / sig / seq / BFsd / BFpe / samples / interval / num / ip are each independently absent, valid or malformed, with y in r/e/x/absent, every `e` form and trailing bytes. Oracle: the process does not die (write-ahead journal + crash triage in the driver); once the adversary stops, the operation returns and Stats/NumNodes/Nodes/WriteStatus return (deadlock detector); a well-formed ping from a never-used address is answered by one response carrying the node's ID (nothing when passive or vetoing). Non-trivial: a datagram reached a query handler, or a hostile reply was delivered from the address of a live query.",
 		[]string{"source addresses are what a socket can deliver: 4-byte or 16-byte IPs, non-zero ports", "pending queries wait 25 ms of real time for hostile replies: which queries are live when a reply is crafted depends on timing, so a failing case may need several replays; the verdicts (death, deadlock, silence) do not depend on timing"},
 		genC01, runC01)
 }
